@@ -400,8 +400,15 @@ impl Scenario for TimeConservation {
                     let l0 = lcd_frame_pos(a);
                     let t0 = a.timer_phase() as u64;
                     unsafe { libc::alarm(20) };
+                    a.trace_start();
                     let r = std::panic::catch_unwind(std::panic::AssertUnwindSafe(|| a.run_frame()));
                     unsafe { libc::alarm(0) };
+                    // a DIV write while the frame ran (a derailed program's stack walking through the I/O page) restarts the
+                    // divider: the elapsed time cannot be recovered from it then
+                    if a.trace_take().iter().any(|e| e.0 == 1 && e.1 == 0xff04) {
+                        no_div = false;
+                        ctx.cov.hit("divider_closed_form_ended_by_div_write");
+                    }
                     let _ = crate::capture::take();
                     lockstep = false;
                     if r.is_err() {
